@@ -399,6 +399,23 @@ func checkC16(w *World, r *Report) {
 	checkLengthPrefixes(w, r, "R16.3")
 	checkGobDead(w, r)
 	checkCompiledPaths(w, r)
+	// R16.6: nothing on the compile / load / serialise paths memoises in a package-level table
+	// anything that is not a function of the table's key (a parsed tree keyed by name+timestamp…)
+	codec := map[*ssa.Function]bool{}
+	var roots []*ssa.Function
+	for _, nm := range []string{"LoadFromCompiled", "CompileTemplate", "SerializeCompiledTemplate", "DeserializeCompiledTemplate"} {
+		if f := w.tryFn(nm); f != nil {
+			roots = append(roots, w.ssaFunc(f))
+		}
+	}
+	cut := map[*ssa.Function]bool{}
+	if m := w.tryMethod("Parser", "Parse"); m != nil {
+		cut[w.ssaFunc(m)] = true
+	}
+	for f := range w.reachableFromCut(roots, cut) {
+		codec[f] = true
+	}
+	checkGlobalMemos(w, r, "R16.6", func(f *ssa.Function) bool { return codec[f] })
 }
 
 func (w *World) compareWire(r *Report, wfd, rfd *ast.FuncDecl, wo, ro []wireOp, helper bool, helperPairOK bool) bool {
